@@ -276,8 +276,20 @@ impl fmt::Display for Problem {
             writeln!(f, "tff(type_function_constant_{i}, type, {name}: {sort}).")?
         }
 
+        // Order the symbols by their original names: a symbol that was renamed to `<name>__s` because it
+        // clashes with a propositional predicate still denotes `<name>` in the standard interpretation
+        let propositional_predicates: IndexSet<String> = self
+            .predicates()
+            .into_iter()
+            .filter(|p| p.arity == 0)
+            .map(|p| p.symbol)
+            .collect();
+        let original_name = |symbol: &String| match symbol.strip_suffix("__s") {
+            Some(stem) if propositional_predicates.contains(stem) => stem.to_string(),
+            _ => symbol.clone(),
+        };
         let mut symbols = Vec::from_iter(self.symbols());
-        symbols.sort_unstable();
+        symbols.sort_unstable_by_key(original_name);
         for (i, s) in symbols.windows(2).enumerate() {
             writeln!(
                 f,
